@@ -1310,3 +1310,243 @@ Proof.
     destruct E as [_ [v E]]. intros H; inversion H; subst. left; cbn; lia.
   - intros H; inversion H; subst. left; cbn; lia.
 Qed.
+
+(* ---------- which object headers the non-READ handlers reject ------------------------------------ *)
+
+(* the function codes handle_non_read executes (everything else but CONFIRM and READ falls into its
+   default branch: NO_FUNC_CODE_SUPPORT) *)
+Definition fn_executed (fn : N) : bool :=
+  existsb (N.eqb fn) [2; 3; 4; 5; 6; 7; 8; 9; 10; 11; 12; 13; 14; 20; 21; 23; 24].
+
+(* WRITE: g80v1 other than "clear IIN1.7", malformed or refused time objects, anything else *)
+Definition write_rejects (cfg : ocfg) (h : whdr) : bool :=
+  match h with
+  | WIin bits => existsb (fun iv => negb (fst iv =? 7) || snd iv) bits
+  | WAbsTime None => true
+  | WLastRec None => true
+  | WAbsTime (Some _) => negb (o_wtime cfg =? 0)
+  | WLastRec (Some _) => negb (o_wtime cfg =? 0)
+  | _ => true
+  end.
+
+(* freeze functions: anything but g20v0 (all objects / range), or the application refuses *)
+Definition freeze_rejects (cfg : ocfg) (h : whdr) : bool :=
+  match h with
+  | WFrzAll => negb (o_freeze cfg =? 0)
+  | WFrzRange _ _ => negb (o_freeze cfg =? 0)
+  | _ => true
+  end.
+
+(* FREEZE_AT_TIME: a malformed g50v2, and the above for every other header *)
+Definition freeze_at_time_rejects (cfg : ocfg) (h : whdr) : bool :=
+  match h with
+  | WFt (Some _) => false
+  | WFt None => true
+  | _ => freeze_rejects cfg h
+  end.
+
+(* ENABLE/DISABLE_UNSOLICITED: anything but g60v2/3/4 *)
+Definition unsol_class_hdr (h : whdr) : bool :=
+  match h with WCls 1 => true | WCls 2 => true | WCls 3 => true | _ => false end.
+
+Definition is_ctl_hdr (h : whdr) : bool := match h with WCtl _ _ _ _ => true | _ => false end.
+
+Lemma req_result_nonzero code : (code =? 0) = false -> N.land (req_result_iin2 code) 7 <> 0.
+Proof.
+  intros H. unfold req_result_iin2. rewrite H. destruct (code =? 1); cbn; discriminate.
+Qed.
+
+Lemma write_iin_bits_rejects bits : forall s s1 v o,
+  existsb (fun iv => negb (fst iv =? 7) || snd iv) bits = true ->
+  write_iin_bits s bits = (s1, v, o) -> N.land v 7 <> 0.
+Proof.
+  induction bits as [|[idx value] rest IH]; intros s s1 v o Hex H; cbn [existsb] in Hex; [discriminate|].
+  cbn [write_iin_bits] in H. cbn [fst snd] in Hex.
+  destruct (idx =? 7); [destruct value|].
+  - destruct (write_iin_bits s rest) as [[s' v'] o']. replace v with (N.lor iin2_param v') by congruence.
+    apply land7_lor. cbn. discriminate.
+  - cbn in Hex. destruct (write_iin_bits (upd_restart s false) rest) as [[s' v'] o'] eqn:E.
+    replace v with v' by congruence. eapply IH; eassumption.
+  - destruct (write_iin_bits s rest) as [[s' v'] o']. replace v with (N.lor iin2_param v') by congruence.
+    apply land7_lor. cbn. discriminate.
+Qed.
+
+Lemma write_header_rejects cfg s h s1 v o :
+  write_rejects cfg h = true -> write_header cfg s h = (s1, v, o) -> N.land v 7 <> 0.
+Proof.
+  unfold write_rejects, write_header.
+  destruct h as [bits|[t|]|[t|]|c| |a b|x| | |g v0 p items|]; intros Hr H;
+    try (inversion H; subst; cbn; discriminate).
+  - eapply write_iin_bits_rejects; eassumption.
+  - inversion H; subst. apply req_result_nonzero. apply negb_true_iff. exact Hr.
+  - destruct (s_last_recorded s) as [t0|]; [|inversion H; subst; cbn; discriminate].
+    destruct (max_timestamp - t <? Z.to_N (s_now s - t0)); inversion H; subst; [cbn; discriminate|].
+    apply req_result_nonzero. apply negb_true_iff. exact Hr.
+Qed.
+
+Lemma handle_write_headers_rejects cfg hdrs : forall s s1 v o,
+  existsb (write_rejects cfg) hdrs = true -> handle_write_headers cfg s hdrs = (s1, v, o) -> N.land v 7 <> 0.
+Proof.
+  induction hdrs as [|h rest IH]; intros s s1 v o Hex H; cbn [existsb] in Hex; [discriminate|].
+  cbn [handle_write_headers] in H.
+  destruct (write_header cfg s h) as [[s' v1] o1] eqn:E1.
+  destruct (handle_write_headers cfg s' rest) as [[s'' v2] o2] eqn:E2.
+  inversion H; subst. apply orb_true_iff in Hex. destruct Hex as [Hex|Hex].
+  - apply land7_lor. eapply write_header_rejects; eassumption.
+  - apply land7_lor_r. eapply IH; eassumption.
+Qed.
+
+Lemma freeze_header_rejects cfg ft t i h :
+  freeze_rejects cfg h = true -> N.land (fst (freeze_header cfg ft t i h)) 7 <> 0.
+Proof.
+  unfold freeze_rejects, freeze_header. destruct h; intros Hr; cbn [fst];
+    try (cbn; discriminate); apply req_result_nonzero; apply negb_true_iff; exact Hr.
+Qed.
+
+Lemma handle_freeze_rejects cfg ft hdrs :
+  existsb (freeze_rejects cfg) hdrs = true -> N.land (fst (handle_freeze cfg ft hdrs)) 7 <> 0.
+Proof.
+  induction hdrs as [|h rest IH]; intros Hex; cbn [existsb] in Hex; [discriminate|].
+  cbn [handle_freeze]. pose proof (freeze_header_rejects cfg ft 0 0 h) as Hh.
+  destruct (freeze_header cfg ft 0 0 h) as [v1 o1]. destruct (handle_freeze cfg ft rest) as [v2 o2].
+  cbn [fst] in *. apply orb_true_iff in Hex. destruct Hex as [Hex|Hex]; [apply land7_lor|apply land7_lor_r]; auto.
+Qed.
+
+Lemma handle_freeze_at_time_rejects cfg hdrs : forall timing,
+  existsb (freeze_at_time_rejects cfg) hdrs = true ->
+  N.land (fst (handle_freeze_at_time cfg timing hdrs)) 7 <> 0.
+Proof.
+  induction hdrs as [|h rest IH]; intros timing Hex; cbn [existsb] in Hex; [discriminate|].
+  apply orb_true_iff in Hex.
+  assert (Hgen : (freeze_rejects cfg h = true \/ existsb (freeze_at_time_rejects cfg) rest = true) ->
+                 N.land (fst (match timing with
+      | None => let '(v, o) := handle_freeze_at_time cfg timing rest in (N.lor iin2_param v, o)
+      | Some (t, i) => let '(v1, o1) := freeze_header cfg 2 t i h in
+                       let '(v2, o2) := handle_freeze_at_time cfg timing rest in (N.lor v1 v2, o1 ++ o2)
+      end)) 7 <> 0).
+  { intros Hc. destruct timing as [[t i]|].
+    - pose proof (freeze_header_rejects cfg 2 t i h) as Hh. pose proof (IH (Some (t, i))) as Hr.
+      destruct (freeze_header cfg 2 t i h) as [v1 o1].
+      destruct (handle_freeze_at_time cfg (Some (t, i)) rest) as [v2 o2]. cbn [fst] in *.
+      destruct Hc as [Hc|Hc]; [apply land7_lor|apply land7_lor_r]; auto.
+    - destruct (handle_freeze_at_time cfg None rest) as [v2 o2]. cbn [fst]. apply land7_lor. cbn. discriminate. }
+  cbn [handle_freeze_at_time].
+  destruct h as [bits|t0|t0|c| |a b|[x|]| | |g v0 p items|]; try (apply Hgen; exact Hex).
+  - destruct Hex as [Hex|Hex]; [discriminate|]. apply IH. exact Hex.
+  - destruct (handle_freeze_at_time cfg timing rest) as [v2 o2]. cbn [fst]. apply land7_lor. cbn. discriminate.
+Qed.
+
+Definition ed_step (enable : bool) (acc : (bool * bool * bool) * N) (h : whdr) : (bool * bool * bool) * N :=
+  let '((c1, c2, c3), v) := acc in
+  match h with
+  | WCls 1 => ((enable, c2, c3), v)
+  | WCls 2 => ((c1, enable, c3), v)
+  | WCls 3 => ((c1, c2, enable), v)
+  | _ => ((c1, c2, c3), N.lor v iin2_no_func)
+  end.
+
+Lemma enable_disable_eq cfg s enable seq hdrs :
+  enable_disable cfg s enable seq hdrs =
+  if negb (o_unsol cfg) then (s, empty_solicited seq iin2_no_func)
+  else let '(e, v) := fold_left (ed_step enable) hdrs (s_enabled s, 0) in (upd_enabled s e, empty_solicited seq v).
+Proof. reflexivity. Qed.
+
+Lemma ed_fold_rejects enable hdrs : forall acc,
+  (N.land (snd acc) 7 <> 0 \/ existsb (fun h => negb (unsol_class_hdr h)) hdrs = true) ->
+  N.land (snd (fold_left (ed_step enable) hdrs acc)) 7 <> 0.
+Proof.
+  induction hdrs as [|h rest IH]; intros acc Hc; cbn [fold_left].
+  - destruct Hc as [Hc|Hc]; [exact Hc|discriminate].
+  - apply IH. cbn [existsb] in Hc. destruct acc as [[[c1 c2] c3] v]. cbn [snd] in Hc.
+    destruct Hc as [Hc|Hc].
+    + left. unfold ed_step.
+      destruct h as [bits|t0|t0|c| |a b|x| | |g v0 p items|]; cbn [snd]; try (apply land7_lor; exact Hc).
+      destruct c as [|[[[]|[]|]|[[]|[]|]|]]; cbn [snd]; try exact Hc; apply land7_lor; exact Hc.
+    + apply orb_true_iff in Hc. destruct Hc as [Hc|Hc]; [left|right; exact Hc].
+      unfold ed_step.
+      destruct h as [bits|t0|t0|c| |a b|x| | |g v0 p items|]; cbn [snd]; try (apply land7_lor_r; cbn; discriminate).
+      destruct c as [|[[[]|[]|]|[[]|[]|]|]]; cbn [snd]; try (apply land7_lor_r; cbn; discriminate);
+        cbn in Hc; discriminate.
+Qed.
+
+Lemma enable_disable_rejects cfg s enable seq hdrs :
+  (o_unsol cfg = false \/ existsb (fun h => negb (unsol_class_hdr h)) hdrs = true) ->
+  N.land (r_iin2 (snd (enable_disable cfg s enable seq hdrs))) 7 <> 0.
+Proof.
+  intros Hc. rewrite enable_disable_eq. destruct (o_unsol cfg) eqn:Eu; cbn [negb].
+  - destruct Hc as [Hc|Hc]; [discriminate|].
+    pose proof (ed_fold_rejects enable hdrs (s_enabled s, 0) (or_intror Hc)) as Hf.
+    destruct (fold_left (ed_step enable) hdrs (s_enabled s, 0)) as [e v]. cbn [snd] in *. exact Hf.
+  - cbn. discriminate.
+Qed.
+
+Lemma all_controls_false hdrs : existsb (fun h => negb (is_ctl_hdr h)) hdrs = true -> all_controls hdrs = false.
+Proof.
+  induction hdrs as [|h rest IH]; cbn [existsb all_controls forallb]; [discriminate|].
+  intros H. apply orb_true_iff in H. destruct H as [H|H].
+  - destruct h; cbn in H; try discriminate; reflexivity.
+  - unfold all_controls in IH. rewrite (IH H). apply andb_false_r.
+Qed.
+
+Lemma handle_controls_rejects cfg s fn seq fid bytes hdrs :
+  existsb (fun h => negb (is_ctl_hdr h)) hdrs = true -> (fn =? fn_direct_operate_nr) = false ->
+  handle_controls cfg s fn seq fid bytes hdrs = (s, Some (empty_solicited seq iin2_param), []).
+Proof.
+  intros H Hfn. unfold handle_controls. rewrite (all_controls_false _ H), Hfn. reflexivity.
+Qed.
+
+(* handle_non_read per function code *)
+Lemma hnr_body_write cfg s seq fid bytes hdrs :
+  hnr_body cfg s 2 seq fid bytes hdrs =
+  let '(s1, v, o) := handle_write_headers cfg s hdrs in (s1, Some (empty_solicited seq v), o).
+Proof. reflexivity. Qed.
+Lemma hnr_body_select cfg s seq fid bytes hdrs :
+  hnr_body cfg s 3 seq fid bytes hdrs = handle_controls cfg s 3 seq fid bytes hdrs.
+Proof. reflexivity. Qed.
+Lemma hnr_body_operate cfg s seq fid bytes hdrs :
+  hnr_body cfg s 4 seq fid bytes hdrs = handle_controls cfg s 4 seq fid bytes hdrs.
+Proof. reflexivity. Qed.
+Lemma hnr_body_direct_operate cfg s seq fid bytes hdrs :
+  hnr_body cfg s 5 seq fid bytes hdrs = handle_controls cfg s 5 seq fid bytes hdrs.
+Proof. reflexivity. Qed.
+Lemma hnr_body_direct_operate_nr cfg s seq fid bytes hdrs :
+  hnr_body cfg s 6 seq fid bytes hdrs = handle_controls cfg s 6 seq fid bytes hdrs.
+Proof. reflexivity. Qed.
+Lemma hnr_body_freeze cfg s seq fid bytes hdrs :
+  hnr_body cfg s 7 seq fid bytes hdrs =
+  let '(v, o) := handle_freeze cfg 0 hdrs in (s, Some (empty_solicited seq v), o).
+Proof. reflexivity. Qed.
+Lemma hnr_body_freeze_nr cfg s seq fid bytes hdrs :
+  hnr_body cfg s 8 seq fid bytes hdrs = let '(v, o) := handle_freeze cfg 0 hdrs in (s, None, o).
+Proof. reflexivity. Qed.
+Lemma hnr_body_freeze_clear cfg s seq fid bytes hdrs :
+  hnr_body cfg s 9 seq fid bytes hdrs =
+  let '(v, o) := handle_freeze cfg 1 hdrs in (s, Some (empty_solicited seq v), o).
+Proof. reflexivity. Qed.
+Lemma hnr_body_freeze_clear_nr cfg s seq fid bytes hdrs :
+  hnr_body cfg s 10 seq fid bytes hdrs = let '(v, o) := handle_freeze cfg 1 hdrs in (s, None, o).
+Proof. reflexivity. Qed.
+Lemma hnr_body_freeze_at_time cfg s seq fid bytes hdrs :
+  hnr_body cfg s 11 seq fid bytes hdrs =
+  let '(v, o) := handle_freeze_at_time cfg None hdrs in (s, Some (empty_solicited seq v), o).
+Proof. reflexivity. Qed.
+Lemma hnr_body_freeze_at_time_nr cfg s seq fid bytes hdrs :
+  hnr_body cfg s 12 seq fid bytes hdrs = let '(v, o) := handle_freeze_at_time cfg None hdrs in (s, None, o).
+Proof. reflexivity. Qed.
+Lemma hnr_body_enable cfg s seq fid bytes hdrs :
+  hnr_body cfg s 20 seq fid bytes hdrs = let '(s1, r) := enable_disable cfg s true seq hdrs in (s1, Some r, []).
+Proof. reflexivity. Qed.
+Lemma hnr_body_disable cfg s seq fid bytes hdrs :
+  hnr_body cfg s 21 seq fid bytes hdrs = let '(s1, r) := enable_disable cfg s false seq hdrs in (s1, Some r, []).
+Proof. reflexivity. Qed.
+
+Lemma hnr_body_default cfg s fn seq fid bytes hdrs :
+  fn_executed fn = false -> hnr_body cfg s fn seq fid bytes hdrs = (s, Some (empty_solicited seq iin2_no_func), []).
+Proof.
+  unfold fn_executed. cbn [existsb]. intros H.
+  repeat (apply orb_false_iff in H; let A := fresh "A" in destruct H as [A H]).
+  unfold hnr_body, fn_write, fn_delay_measure, fn_record_time, fn_cold_restart, fn_warm_restart, fn_select,
+    fn_operate, fn_direct_operate, fn_direct_operate_nr, fn_immediate_freeze, fn_immediate_freeze_nr,
+    fn_freeze_clear, fn_freeze_clear_nr, fn_freeze_at_time, fn_freeze_at_time_nr, fn_enable_unsol, fn_disable_unsol.
+  rewrite A, A0, A1, A2, A3, A4, A5, A6, A7, A8, A9, A10, A11, A12, A13, A14, A15. reflexivity.
+Qed.
